@@ -120,13 +120,14 @@ pub fn generate(rng: &mut Rng, seed: u64, run: u64, max_len: usize) -> Trace {
         v.sort_by_key(|f| f.at);
         v
     };
+    let resilient = rng.chance(1, 2) as i64;
     Trace {
         prop: "C17".into(),
         surface: surface.into(),
         input: wl.bytes,
         ops,
         faults,
-        params: vec![("fg".into(), fg), ("bg".into(), bg)],
+        params: vec![("fg".into(), fg), ("bg".into(), bg), ("resilient_client".into(), resilient)],
         seed,
         run,
     }
@@ -255,6 +256,25 @@ pub fn framing_ok(delta: &[u8], data: &[u8], n: usize, fg: u8, bg: u8) -> Result
     Err(why)
 }
 
+/// `<codes>` and `<reset>` of the fault-free framing for all 17 x 17 colour pairs, rendered by the
+/// real code once per process *before* any call under test (never between two of them: a call
+/// made by the harness could mask state that the code under test keeps from one call to the next).
+fn reference_frames() -> &'static Vec<(Vec<u8>, Vec<u8>)> {
+    static F: std::sync::OnceLock<Vec<(Vec<u8>, Vec<u8>)>> = std::sync::OnceLock::new();
+    F.get_or_init(|| {
+        let mut v = Vec::with_capacity(17 * 17);
+        for fg in 0..17i64 {
+            for bg in 0..17i64 {
+                let mut full = Vec::new();
+                let _ = anstyle_wincon::ansi::write_colored(&mut full, color(fg), color(bg), b"X");
+                let at = full.iter().position(|b| *b == b'X').unwrap_or(0);
+                v.push((full[..at].to_vec(), full[(at + 1).min(full.len())..].to_vec()));
+            }
+        }
+        v
+    })
+}
+
 enum Target<'a> {
     Sim(&'a SimWriter),
     Vec(Vec<u8>),
@@ -346,6 +366,9 @@ pub fn execute(t: &Trace, stats: &mut Stats, record: bool) -> Outcome {
     let mut nontrivial = false;
     let mut stopped = false;
     let mut calls = 0usize;
+    let resilient = t.param("resilient_client") == Some(1);
+    let mut retried: Option<usize> = None;
+    let frames = reference_frames();
 
     let mut ops: Vec<Op> = t.ops.clone();
     let mut i = 0usize;
@@ -448,9 +471,12 @@ pub fn execute(t: &Trace, stats: &mut Stats, record: bool) -> Outcome {
                 // (the data write may itself have been short: any accepted count m is legal)
                 let mut ok = false;
                 let mut full = Vec::new();
+                let (pre, post) = &frames[(fgc as usize) * 17 + bgc as usize];
                 for m in (0..=buf.len()).rev() {
                     full.clear();
-                    let _ = anstyle_wincon::ansi::write_colored(&mut full, color(fgc), color(bgc), &buf[..m]);
+                    full.extend_from_slice(pre);
+                    full.extend_from_slice(&buf[..m]);
+                    full.extend_from_slice(post);
                     if full.starts_with(&delta) {
                         ok = true;
                         break;
@@ -458,12 +484,27 @@ pub fn execute(t: &Trace, stats: &mut Stats, record: bool) -> Outcome {
                 }
                 if !ok {
                     full.clear();
-                    let _ = anstyle_wincon::ansi::write_colored(&mut full, color(fgc), color(bgc), buf);
+                    full.extend_from_slice(pre);
+                    full.extend_from_slice(buf);
+                    full.extend_from_slice(post);
                     violation = Some(viol("bad-framing", format!("{what}: partial output {:?} is not a prefix of <codes><some prefix of the data><reset> (full framing {:?})", lossy(&delta), lossy(&full))));
                     break;
                 }
                 stats.probe("error_reached_caller");
                 if !matches!(k, io::ErrorKind::Interrupted | io::ErrorKind::WouldBlock) || !delta.is_empty() {
+                    if resilient && i <= t.ops.len() {
+                        // error aftermath: every coloured write stands for itself, so a client may
+                        // simply call again - first with exactly the same arguments (same colours,
+                        // same slice), then with the next ones.  Each call is judged on its own
+                        // output; that the data may arrive twice is the client's choice.
+                        stats.probe("history_continued_after_failed_call");
+                        if retried != Some(i - 1) {
+                            retried = Some(i - 1);
+                            i -= 1;
+                            calls -= 1;
+                        }
+                        continue;
+                    }
                     // hard error, or progress unknown to the caller: stop
                     stopped = true;
                     break;
